@@ -595,6 +595,7 @@ func (c *Chunker) buildSections(doc *model.Document) []*Section {
 				if len(sectionStack) > 0 {
 					currentSection := sectionStack[len(sectionStack)-1]
 					currentSection.Content = append(currentSection.Content, elem)
+					currentSection.PageEnd = pageIndex
 				} else {
 					preambleContent = append(preambleContent, elem)
 					if preambleStartPage == 0 {
